@@ -138,6 +138,17 @@ func CwdFor(site *Site, inv *Invocation) string {
 		return site.Root
 	case "gitdir":
 		return site.GitDir
+	case "symlink":
+		// <root>/lnk -> <worktree>/sub/dir, created on first use; the
+		// logical path (what $PWD holds) has a different parent chain
+		// than the physical one
+		if site.WorkDir != "" {
+			l := filepath.Join(site.Root, "lnk")
+			if _, err := os.Lstat(l); err != nil {
+				os.Symlink(filepath.Join(site.WorkDir, "sub", "dir"), l)
+			}
+			return l
+		}
 	}
 	if site.WorkDir != "" {
 		return site.WorkDir
